@@ -94,13 +94,18 @@ def lfuPolicy (windowFn protFn : Nat → Nat) (k : SketchCfg) : Policy Lfu where
     else { s with prot := eraseId r.id s.prot, tw := s.tw - r.weight }
   acquire s r :=
     let s1 := Lfu.touchFreq k s r.hash
-    if hasId r.id s1.window then { s1 with window := eraseId r.id s1.window ++ [r] }
-    else if hasId r.id s1.probation then
-      let (t, p, tw, pw) := lfuProtectedOverflow s1.tCap (s1.prot ++ [r]) (eraseId r.id s1.probation)
-        (s1.tw + r.weight) (s1.pw - r.weight)
-      { s1 with prot := t, probation := p, tw, pw }
-    else if hasId r.id s1.prot then { s1 with prot := eraseId r.id s1.prot ++ [r] }
-    else s1
+    match findId r.id s1.window with
+    | some x => { s1 with window := eraseId r.id s1.window ++ [x] }
+    | none =>
+      match findId r.id s1.probation with
+      | some x =>
+        let (t, p, tw, pw) := lfuProtectedOverflow s1.tCap (s1.prot ++ [x]) (eraseId r.id s1.probation)
+          (s1.tw + x.weight) (s1.pw - x.weight)
+        { s1 with prot := t, probation := p, tw, pw }
+      | none =>
+        match findId r.id s1.prot with
+        | some x => { s1 with prot := eraseId r.id s1.prot ++ [x] }
+        | none => s1
   release s _ := s
   update s cap := { s with wCap := windowFn cap, tCap := protFn cap }
   clear s := { s with window := [], probation := [], prot := [], ww := 0, pw := 0, tw := 0 }
